@@ -31,7 +31,7 @@ func init() {
 			if tier == "thorough" {
 				return 4000
 			}
-			return 96
+			return 192
 		},
 		Run:  runC06,
 		Need: []string{"checktx", "admitted_executed"},
